@@ -57,4 +57,8 @@ uint64_t perturb_spurious(void);
 
 void verif_sched_point(int kind);
 
+/* thread of the harness itself: created without fault injection and without counting as a pthread_create of the scenario */
+#include <pthread.h>
+int perturb_create_harness_thread(pthread_t *t, void *(*fn)(void *), void *arg);
+
 #endif
